@@ -36,6 +36,7 @@ class G:
         self.rustc_error = None
         self.assert_code = None    # exact-type assertions generated from the compiler model's declarations
         self.mcompile = None       # the compiler model's answer for this grammar
+        self.wf = None             # WellFormed.well_formed (the termination certificate checks), from the model
         self.exports = []
 
 
